@@ -1,12 +1,44 @@
 """HTTP level: the real Server.ServeHTTP against the Upd model (C01 C02 C03 C04 C07 C08 C14 C15 C16)."""
 import os
+import re
 
 from . import core
 from .common import Built
 from .inpkg import Profile, check_profile
 
+FIELDS = ("code", "loc", "range", "dcd", "body", "ct", "subj", "filt", "link", "cl", "crange")
+_re_field = re.compile(r" (code|loc|range|dcd|body|ct|subj|filt|link|cl|crange)=")
 
-def reg_profile(o):
+
+def parse_resp(line):
+    """'201 code= loc=… …' -> dict (status + fields); other answers ('new', 'def', …) -> {'status': line}"""
+    m = re.match(r"^(\d{3}) code=", line)
+    if not m:
+        return {"status": line}
+    out = {"status": m.group(1)}
+    idx = [(mm.start(), mm.group(1)) for mm in _re_field.finditer(line)]
+    for i, (pos, name) in enumerate(idx):
+        end = idx[i + 1][0] if i + 1 < len(idx) else len(line)
+        out[name] = line[pos + len(name) + 2:end]
+    return out
+
+
+def make_view(ops=None, fields=None, skip=("PRUNE",)):
+    """projection of one (request, answer) pair: None = not compared for this property"""
+    def view(op, ans):
+        kind = op.split(" ", 1)[0]
+        if kind in skip:
+            return None
+        if ops is not None and kind not in ops:
+            return None
+        if fields is None:
+            return ans
+        r = parse_resp(ans)
+        return " ".join("%s=%s" % (f, r.get(f, "")) for f in ("status",) + tuple(fields))
+    return view
+
+
+def reg_profile(o, view=None):
     key = ("b", "reg")
     if key not in Built.cache:
         Built.cache[key] = core.go_build("reg")
@@ -25,11 +57,106 @@ def reg_profile(o):
         e["VERIF_WORK"] = work
         p = core.sh([b], env=e, check=False, timeout=3000)
         return p.returncode == 0, p.stdout
-    return Profile("reg", run, "regdriver", keep=None) if False else Profile("reg", run, "regdriver")
+    return Profile("reg", run, "regdriver", view=view)
 
 
 def keep_line(l):
     return l.startswith("NEW") or l.startswith("DEF")
 
 
+def nontrivial(op, ans):
+    k = op.split(" ", 1)[0]
+    return k not in ("NEW", "DEF") and not ans.startswith("404 code=MANIFEST_UNKNOWN") and not ans.startswith("404 code=BLOB_UNKNOWN")
+
+
+STORES = ("mem", "dir", "memdir")
+
+
+def http_check(o, tier, prop, profiles, view, rule, n_quick=250, n_thorough=8000, stores=STORES, monitors_prefix=None, extra_monitors=()):
+    prof = reg_profile(o, view)
+    if prof is None:
+        return
+    o.cov["rule"] = rule
+    mons = None
+    if monitors_prefix is not None:
+        mons = MonitorSet(monitors_prefix, extra_monitors)
+    n = n_quick if tier == "quick" else n_thorough
+    for pr in profiles:
+        for st in stores:
+            check_profile(o, prof, "gen", {"VERIF_SEED": o.seed, "VERIF_N": n, "VERIF_PROFILE": pr, "VERIF_STORE": st},
+                          "reg-%s-%s" % (pr, st), mons, nontrivial=nontrivial, keep=keep_line)
+    prof.cleanup()
+
+
+class MonitorSet:
+    """monitor names relevant to a property: everything with the prefix, plus explicit extras"""
+    def __init__(self, prefix, extras=()):
+        self.prefix, self.extras = prefix, set(extras)
+
+    def __contains__(self, name):
+        return name.startswith(self.prefix) or name in self.extras
+
+
+RULE = ("HTTP profile '%s': generated request histories (6-35 requests each, every random choice from VERIF_SEED) run on the real "
+        "Server.ServeHTTP in-process on the memory, directory and memory-over-directory stores; every answer (status, error code, "
+        "Location, Range, Docker-Content-Digest, body, Content-Type, OCI-Subject, OCI-Filters-Applied, Link, Content-Length, Content-Range) "
+        "is compared with the Lean model's (projected to the fields this property constrains); statement-level monitors run on the "
+        "implementation's answers. distinct_nontrivial = distinct (request line, answer) pairs other than definitions and plain not-found answers")
+
+
+def check_C01(o, tier):
+    o.add_audit(core.audit("C01", tier == "thorough"))
+    http_check(o, tier, "C01", ["upload", "mix"], make_view(fields=("code", "loc", "dcd", "body")), RULE % "upload, mix", monitors_prefix="C01.")
+
+
+def check_C02(o, tier):
+    o.add_audit(core.audit("C02", tier == "thorough"))
+    http_check(o, tier, "C02", ["mix", "limits"], make_view(fields=("code", "dcd", "body", "ct", "cl", "crange")), RULE % "mix, limits", monitors_prefix="C02.")
+
+
+def check_C03(o, tier):
+    o.add_audit(core.audit("C03", tier == "thorough"))
+    http_check(o, tier, "C03", ["tags", "mix"], make_view(ops=("TAGS", "MGET", "MHEAD", "MDEL", "MPUT"), fields=("code", "dcd", "body", "link")),
+               RULE % "tags, mix", monitors_prefix="C03.")
+
+
+def check_C04(o, tier):
+    o.add_audit(core.audit("C04", tier == "thorough"))
+    http_check(o, tier, "C04", ["mix", "limits"], make_view(ops=("MPUT", "MGET", "MHEAD", "BGET", "BHEAD", "TAGS", "REFS"), fields=("code", "dcd", "body")),
+               RULE % "mix, limits", monitors_prefix="C04.", extra_monitors=("C02.limit",))
+
+
+def check_C07(o, tier):
+    o.add_audit(core.audit("C07", tier == "thorough"))
+    http_check(o, tier, "C07", ["refs", "mix", "limits"], make_view(ops=("REFS", "MPUT", "MDEL"), fields=("code", "body", "ct", "subj", "filt", "link", "cl")),
+               RULE % "refs, mix, limits", monitors_prefix="C07.")
+
+
+def check_C08(o, tier):
+    o.add_audit(core.audit("C08", tier == "thorough"))
+    http_check(o, tier, "C08", ["upload"], make_view(ops=("UPOST", "UPATCH", "UPUT", "UGET", "UDEL", "BGET", "BHEAD"), fields=("code", "loc", "range", "body")),
+               RULE % "upload", monitors_prefix="C08.")
+    # session bound: monitors only (eviction is asynchronous in the implementation; the cache itself is C20)
+    prof = reg_profile(o, view=lambda op, a: None)
+    if prof is not None:
+        n = 150 if tier == "quick" else 3000
+        for st in ("mem", "dir"):
+            check_profile(o, prof, "gen", {"VERIF_SEED": o.seed, "VERIF_N": n, "VERIF_PROFILE": "evict", "VERIF_STORE": st},
+                          "reg-evict-%s" % st, MonitorSet("C08."), nontrivial=nontrivial, keep=keep_line)
+        prof.cleanup()
+
+
+def check_C15(o, tier):
+    o.add_audit(core.audit("C15", tier == "thorough"))
+    http_check(o, tier, "C15", ["raw", "mix", "upload", "switches"], make_view(fields=("code",)), RULE % "raw, mix, upload, switches", monitors_prefix="C15.")
+
+
+def check_C16(o, tier):
+    o.add_audit(core.audit("C16", tier == "thorough"))
+    http_check(o, tier, "C16", ["isolation", "upload"], make_view(fields=("code", "loc", "dcd", "body")), RULE % "isolation, upload",
+               monitors_prefix="C16.", extra_monitors=("C08.cross-repo", "C07.refs-exact"))
+
+
+CHECKS = {"C01": check_C01, "C02": check_C02, "C03": check_C03, "C04": check_C04, "C07": check_C07, "C08": check_C08,
+          "C15": check_C15, "C16": check_C16}
 PROFILES = {"reg": reg_profile}
